@@ -21,13 +21,14 @@ var coseAlgID = map[string]int64{"ES256": refcose.AlgES256, "ES384": refcose.Alg
 	"EdDSA": refcose.AlgEdDSA, "PS256": refcose.AlgPS256, "PS384": refcose.AlgPS384, "PS512": refcose.AlgPS512}
 
 func runC03(c *mon.Ctx) {
-	c.Rule("(a) valid claims-sets of both profiles and of a registered profile-2 extension (all optional subsets, hash sizes, 1-4 components, P1 flag or list, with/without explicit P1 profile; built directly / by setters / by decoding) x 7 algorithms x fresh keys: SetClaims + ValidateAndSign (and Sign) must succeed; the token read by the independent COSE reader must be tag 18 / 4-array / [bstr, map, bstr, non-empty bstr], its payload byte-identical to ValidateAndEncodeClaimsToCBOR(claims), its protected header must carry the signer's algorithm under label 1; the independent verifier (Go stdlib crypto over a Sig_structure rebuilt by the harness) and Evidence.Verify on the signing Evidence must accept it; DecodeAndValidateEvidenceFromCOSE must succeed, return the same implementation type and identical Validate/getter results (also equal to the reference model's expectation), verify under the signer's key, and hold (hook H2) exactly the token's protected/payload/signature bytes; for every third case the attached claims are then edited in place (new nonce) and the SAME Evidence signs again: the second token's payload must be the encoding of the claims as they are now, verify, decode, and carry the new nonce; every fourth case the DECODED Evidence signs again with a key of another algorithm (re-issue): header algorithm, independent verification and payload are checked; every signing Evidence and token is kept and re-verified after six further cases; (b) invalid claims-sets signed with the non-validating Sign: the claims of the decoded Evidence must equal DecodeClaimsFromCBOR(payload read by the independent reader). distinct_nontrivial = distinct (algorithm, profile, route, optional-subset, nonce size, component count) signatures")
+	c.Rule("(a) valid claims-sets of both profiles and of a registered profile-2 extension (all optional subsets, hash sizes, 1-4 components, P1 flag or list, with/without explicit P1 profile; built directly / by setters / by decoding) x 7 algorithms x fresh keys: SetClaims + ValidateAndSign (and Sign) must succeed; the token read by the independent COSE reader must be tag 18 / 4-array / [bstr, map, bstr, non-empty bstr], its payload byte-identical to ValidateAndEncodeClaimsToCBOR(claims), its protected header must carry the signer's algorithm under label 1; the independent verifier (Go stdlib crypto over a Sig_structure rebuilt by the harness) and Evidence.Verify on the signing Evidence must accept it; DecodeAndValidateEvidenceFromCOSE must succeed, return the same implementation type and identical Validate/getter results (also equal to the reference model's expectation), verify under the signer's key, and hold (hook H2) exactly the token's protected/payload/signature bytes; every token is also decoded by ONE REUSED Evidence that still holds the previous case's claims and must then expose exactly this token's claims; for every third case the attached claims are then edited in place (new nonce) and the SAME Evidence signs again: the second token's payload must be the encoding of the claims as they are now, verify, decode, and carry the new nonce; every fourth case the DECODED Evidence signs again with a key of another algorithm (re-issue): header algorithm, independent verification and payload are checked; every signing Evidence and token is kept and re-verified after six further cases; (b) invalid claims-sets signed with the non-validating Sign: the claims of the decoded Evidence must equal DecodeClaimsFromCBOR(payload read by the independent reader). distinct_nontrivial = distinct (algorithm, profile, route, optional-subset, nonce size, component count) signatures")
 	if err := extprof.Register(extprof.ExtP2Name); err != nil {
 		c.Violation("harness/register", err.Error(), nil)
 		return
 	}
 	g := model.NewGen(c.Seed*7717 + int64(c.Shard))
 	var held03 []c03Held
+	var reuse03 *psatoken.Evidence
 	n := c.N(22400, 560000)
 	for i := 0; i < n; i++ {
 		alg := keys.AlgNames[i%7]
@@ -147,7 +148,35 @@ func runC03(c *mon.Ctx) {
 			// sign again on the SAME Evidence after the attached claims were
 			// edited in place (new challenge): the new token must carry the
 			// claims as they are now
+			// an Evidence object that is decoded into again and again (it holds the
+			// claims of the PREVIOUS case, of whatever profile): after decoding this
+			// token it must expose exactly this token's claims
+			if reuse03 == nil {
+				reuse03 = &psatoken.Evidence{}
+			}
+			if err := reuse03.UnmarshalCOSE(st.tok); err != nil {
+				bad("reused-evidence-decode-failed", "an Evidence that decoded other tokens before rejects this valid token: "+err.Error(), d)
+				return
+			}
+			gr := obs.Observe(reuse03.Claims)
+			if df := model.ObsDiff(&gx, &gr); df != "" || fmt.Sprintf("%T", reuse03.Claims) != fmt.Sprintf("%T", x) {
+				d["reused_evidence_claims"] = gr.String()
+				bad("reused-evidence-stale-claims/"+obsKey(&gx, &gr), fmt.Sprintf("an Evidence that held other claims before exposes, after decoding this token, claims that are not the token's (%T): %s", reuse03.Claims, df), d)
+				reuse03 = nil
+				return
+			}
+			if enc, err := psatoken.EncodeClaimsToCBOR(reuse03.Claims); err != nil || !bytes.Equal(enc, st.env.Payload) {
+				bad("reused-evidence-claims-reencode-differently", "claims exposed by a reused Evidence do not re-encode to the signed payload", d)
+				reuse03 = nil
+				return
+			}
+			if reuse03.Verify(k.Pub) != nil {
+				bad("reused-evidence-verify-failed", "a reused Evidence does not verify the token it just decoded", d)
+				return
+			}
+			c.Count("reused-evidence-decodes")
 			curTok := st.tok
+			firstTokCopy := append([]byte{}, st.tok...)
 			if i%3 == 0 {
 				newNonce := g.Bytes(g.HashLen())
 				if err := x.SetNonce(newNonce); err != nil {
@@ -182,6 +211,10 @@ func runC03(c *mon.Ctx) {
 				}
 				if n2, err := d2.Claims.GetNonce(); err != nil || !bytes.Equal(n2, newNonce) {
 					bad("second-sign-stale-claims", "the second token does not carry the new nonce", d)
+					return
+				}
+				if !bytes.Equal(st.tok, firstTokCopy) {
+					bad("first-token-overwritten-by-second-sign", "the token returned by the first sign operation was overwritten in place by the second one on the same Evidence", d)
 					return
 				}
 				curTok = tok2
@@ -267,6 +300,7 @@ func runC03(c *mon.Ctx) {
 	c.Floor("profile:"+extprof.ExtP2Name, 30)
 	c.Floor("invalid-signed-decoded", 50)
 	c.Floor("second-signs", 300)
+	c.Floor("reused-evidence-decodes", 1000)
 	c.Floor("reissued-with-other-algorithm", 300)
 	c.Floor("held-evidence-rechecked", 1000)
 }
